@@ -10,6 +10,7 @@
 //   A = new plugin "pa", B = new plugin "pb", a = identical re-registration of "pa",
 //   X = conflicting re-registration of "pa" (same name, different content), U = "PA" (case variant of "pa", same content)
 //   R = new resource provider "ra", S = new resource provider "rb", r = identical "ra", T = conflicting "ra"
+//   N = provider "ra" registered while the plugin table is held exclusively (library initializer under mj_loadAllPluginLibraries)
 // prefill: number of plugins in the table before the concurrent phase (14 => the block boundary 15|16 is crossed)
 #include <sys/wait.h>
 #include <unistd.h>
@@ -117,7 +118,14 @@ struct Outcome { int slot = -2; bool error = false; };
 
 static void do_op(char code, Outcome* out) {
   try {
-    if (code == 'R' || code == 'r' || code == 'S' || code == 'T') {
+    if (code == 'N') {
+      // what a plugin library's initializer does when the library is loaded through mj_loadAllPluginLibraries: that function
+      // holds the plugin table exclusively around mj_loadPluginLibrary (dlopen), and the initializer registers a resource
+      // provider (or decoder) from inside
+      auto lock = GlobalTable<mjpPlugin>::GetSingleton().LockExclusively();
+      mjpResourceProvider p = make_provider('R');
+      out->slot = mjp_registerResourceProvider(&p);
+    } else if (code == 'R' || code == 'r' || code == 'S' || code == 'T') {
       mjpResourceProvider p = make_provider(code);
       out->slot = mjp_registerResourceProvider(&p);
     } else {
@@ -216,8 +224,9 @@ static void body() {
   // resource providers: same rules on the second table
   {
     bool has_ra = false, has_rb = false;
-    for (char c : all) { if (c == 'R' || c == 'r' || c == 'T') has_ra = true; if (c == 'S') has_rb = true; }
+    for (char c : all) { if (c == 'R' || c == 'r' || c == 'T' || c == 'N') has_ra = true; if (c == 'S') has_rb = true; }
     int np = mjp_resourceProviderCount();
+    if (np != g_base_providers + (has_ra ? 1 : 0) + (has_rb ? 1 : 0)) vsched::fail("final resource provider count != number of distinct prefixes");
     static int base_np = -1;
     (void)base_np;
     const mjpResourceProvider* ra = mjp_getResourceProvider("ra:x");
